@@ -54,12 +54,22 @@
 //	                     (every use in the whole package must be inlinable; a method promoted through an embedded
 //	                     pointer is inlined with receiver x.E, and x.E.f is spelled x.f where that is the same field)
 //	normLoopMethodNames  canonical names for the locals of the `comparator` / `validate` methods (alpha-renaming)
+//	ruleGuardMerge       if !c {return e}; B…; return e → if c {B…}; return e   (also a != b, nil tests excepted; function body)
+//	ruleInitSink         if v, ok := x.(T); a { if b {S} } → if a { if v, ok := x.(T); b {S} }   (a pure, no mention of v, ok)
+//	ruleAssertInit       v, ok := X.(T); if !ok {A…; J}; return R → if v, ok := X.(T); ok {return R}; A…; J
+//	                     v, ok := X.(T); if ok {return R}; rest → if v, ok := X.(T); ok {return R}; rest   (rest without v, ok)
+//	ruleAssertChain      two or more `if vi, ok := x.(Ti); ok {…; return}` in a row on one local x, then a tail
+//	                     → switch typedNodes := x.(type) { case Ti: …; default: tail }
+//	ruleArithLocal       n := len(xs) - 1; … n … → … len(xs) - 1 …   (while no operand of the expression can have changed)
+//	ruleShortIntDecl     var x int → x := 0   (profile shortIntDecl only: the inverse of ruleZeroDecl, for `slices`)
+//	normAggregateNames   canonical names for two locals of (*syntaxAggregateFunction).retrieve (alpha-renaming)
 //
 // NOT normalised, deliberately (no checkable side condition makes them equivalences): replacing
 // an indexed fill of a pre-sized slice by append (needs a bound on the number of appends),
 // working on a local copy of `*p` and storing it back LATER (differs when a panic intervenes;
 // ruleHeaderAlias only covers a copy that is stored back at once and then merely read), swapping
-// two nested conditions one of which may panic, renaming locals that the generated Lean quotes,
+// two nested conditions one of which may panic, renaming locals that the generated Lean quotes
+// (other than those of the three method families named above),
 // re-associating an allocation (`x := T{…}; …; &x` against `&T{…}` built from a helper's result).
 //
 // Besides rewriting, the pass answers go/types questions about the nodes of a file it has seen
@@ -96,6 +106,7 @@ type normProfile struct {
 	// constructs both ways, so there is no global canonical form)
 	loopElseContinue bool // last in a loop body: `if [init;] A {S} else {T…}` -> `if [init;] A {S; continue}; T…`
 	eqFirst          bool // `if a != b {A} else {B}` -> `if a == b {B} else {A}`
+	shortIntDecl     bool // `var x int` -> `x := 0` (the generator's patterns spell the short form; implies keepIntShort)
 }
 
 // normFileDirections: directions that hold for one file of the library, whichever generator reads
@@ -731,6 +742,19 @@ func countIdent(n ast.Node, name string) int {
 	return k
 }
 
+// countFreeIdent counts the identifiers called name below n other than the selector names of
+// selector expressions (the `f` of `x.f`: resolved in the type of x, not in a scope).
+func countFreeIdent(n ast.Node, name string) int {
+	k := countIdent(n, name)
+	ast.Inspect(n, func(x ast.Node) bool {
+		if se, ok := x.(*ast.SelectorExpr); ok && se.Sel.Name == name {
+			k--
+		}
+		return true
+	})
+	return k
+}
+
 func unparen(e ast.Expr) ast.Expr {
 	for {
 		p, ok := e.(*ast.ParenExpr)
@@ -1054,9 +1078,12 @@ func cannotHold(t, h types.Type) bool {
 // Sound because — checked — the name old is declared exactly once in fd (receiver, parameter or
 // local), so every free-standing identifier old in fd denotes that variable unless it refers to a
 // package-level object of the same name (excluded: no such object exists); new occurs nowhere in
-// fd and is not a package-level name, so no reference is captured and none is created. Selector
+// fd except as the selector name of a selector expression `x.new` — which is looked up in the type
+// of x, never in a scope, so it neither captures nor is captured — and is not a package-level
+// name, so no reference is captured and none is created. Selector
 // names (x.old) and composite-literal keys are not variables: if one of them is spelled old the
-// function is left alone rather than reasoned about.
+// function is left alone rather than reasoned about (a composite-literal key spelled new counts as
+// an occurrence of new: in a map or array literal it is an expression).
 func normRenameLocal(fd *ast.FuncDecl, old, new string) bool {
 	if fd == nil || old == new || old == "" || old == "_" || new == "" || new == "_" {
 		return false
@@ -1074,7 +1101,7 @@ func normRenameLocal(fd *ast.FuncDecl, old, new string) bool {
 	if !loaded || types.Universe.Lookup(new) != nil || types.Universe.Lookup(old) != nil {
 		return false
 	}
-	if declaredNames(fd)[old] != 1 || countIdent(fd, new) != 0 {
+	if declaredNames(fd)[old] != 1 || countFreeIdent(fd, new) != 0 {
 		return false
 	}
 	clash := false
@@ -1166,10 +1193,14 @@ func (c *normCtx) run() {
 			visitLists(fd, c.ruleSwitchToIf)
 			c.ruleComplement(fd) // before the tail rules take the if/else apart
 			c.ruleTypeSwitchOrder(fd)
+			visitLists(fd, c.ruleAssertInit)
+			visitLists(fd, c.ruleAssertChain)
 			visitLists(fd, c.ruleZeroDecl)
+			visitLists(fd, c.ruleShortIntDecl)
 			visitLists(fd, c.ruleDeferClosure)
 			c.ruleRangeValue(fd)
 			visitLists(fd, c.ruleLenLocal)
+			visitLists(fd, c.ruleArithLocal)
 			visitLists(fd, c.rulePtrLocal)
 			visitLists(fd, c.ruleElemLocal)
 			visitLists(fd, c.ruleFwdLocal)
@@ -1180,10 +1211,12 @@ func (c *normCtx) run() {
 			visitLists(fd, c.ruleElseAfterJump)
 			visitLists(fd, c.ruleVoidEarlyReturn)
 			visitLists(fd, c.ruleTailMerge)
+			visitLists(fd, c.ruleGuardMerge)
 			visitLists(fd, c.ruleTailSplit)
 			c.ruleIfNegation(fd)
 			visitLists(fd, c.ruleReturnFlip)
 			visitLists(fd, c.ruleSplitAnd)
+			c.ruleInitSink(fd)
 			c.ruleElseIf(fd)
 			if !c.changed {
 				break
@@ -1196,6 +1229,8 @@ func (c *normCtx) run() {
 				normLoopMethodNames(fd, "left", "right", "hasValue", "leftIndex")
 			case "validate":
 				normLoopMethodNames(fd, "values", "", "foundValue", "index")
+			case "retrieve":
+				normAggregateNames(fd)
 			}
 		}
 		c.fn = nil
@@ -1354,7 +1389,7 @@ func (c *normCtx) ruleZeroDecl(list []ast.Stmt, _ listCtx) []ast.Stmt {
 				typ = "bool"
 			}
 		case *ast.BasicLit:
-			if r.Kind == token.INT && r.Value == "0" && !c.prof.keepIntShort {
+			if r.Kind == token.INT && r.Value == "0" && !c.prof.keepIntShort && !c.prof.shortIntDecl {
 				typ = "int"
 			}
 			if r.Kind == token.STRING && (r.Value == `""` || r.Value == "``") {
@@ -4101,4 +4136,680 @@ func (c *normCtx) splicePredicate(p *normPredicate, s normSite) {
 		}
 		return list
 	})
+}
+
+// ---- rules added for the third set of harmless refactorings (R33 … R48)
+
+// ruleShortIntDecl (profile shortIntDecl only): `var x int` -> `x := 0`.
+// Sound because it is ruleZeroDecl read backwards: `var x int` declares, in the current scope, a
+// new variable x of type int holding int's zero value 0; `x := 0` with a single new name declares
+// a variable of the default type of the untyped constant 0 — int — holding 0. Checked: the
+// declaration stands in a function body, has one spec with one name (not `_`) and no value, and
+// its type is the identifier `int` denoting the universe type (go/types). x is new in its scope
+// (`var x` in a scope that already declares x does not compile), so `:=` declares, not assigns.
+func (c *normCtx) ruleShortIntDecl(list []ast.Stmt, _ listCtx) []ast.Stmt {
+	if !c.prof.shortIntDecl {
+		return list
+	}
+	for i, s := range list {
+		ds, ok := s.(*ast.DeclStmt)
+		if !ok {
+			continue
+		}
+		gd, ok := ds.Decl.(*ast.GenDecl)
+		if !ok || gd.Tok != token.VAR || len(gd.Specs) != 1 {
+			continue
+		}
+		vs, ok := gd.Specs[0].(*ast.ValueSpec)
+		if !ok || len(vs.Names) != 1 || len(vs.Values) != 0 || vs.Names[0].Name == "_" || vs.Type == nil {
+			continue
+		}
+		if !c.isUniverse(vs.Type, "int") {
+			continue
+		}
+		list[i] = &ast.AssignStmt{
+			Lhs: []ast.Expr{vs.Names[0]}, TokPos: vs.Names[0].End(), Tok: token.DEFINE,
+			Rhs: []ast.Expr{&ast.BasicLit{ValuePos: vs.Type.Pos(), Kind: token.INT, Value: "0"}},
+		}
+		c.mark("ruleShortIntDecl")
+	}
+	return list
+}
+
+// negativeCond: e is `!x`, or `a != b` with neither operand the identifier nil (the library tests
+// nil both ways, so neither form is canonical there — as in ruleReturnFlip).
+func negativeCond(e ast.Expr) bool {
+	switch x := unparen(e).(type) {
+	case *ast.UnaryExpr:
+		return x.Op == token.NOT
+	case *ast.BinaryExpr:
+		return x.Op == token.NEQ && !isNilIdent(x.X) && !isNilIdent(x.Y)
+	}
+	return false
+}
+
+// ruleGuardMerge: at the end of a function body,
+// `if N { return e }; B…; return e` with N a negative condition (`!c`, `a != b`), B not empty, e an
+// identifier or literal (the same text) -> `if c { B… }; return e`   (c the exact negation of N).
+// Sound because N is evaluated once in both forms. If N holds, the old form returns e at once; the
+// new form skips B… and reaches `return e` with nothing executed in between, so e has the same
+// value. If N does not hold both forms run B… and then `return e` (a return inside B… leaves the
+// function in both forms). Checked: the list is the function body and ends in that return; the if
+// has no init and no else and its body is exactly `return e`; e is not declared by a top-level
+// statement of B… (it would go out of scope before the final return); the declarations of B… move
+// into a block, after which only `return e` follows; no labels or goto in the function.
+// (The complement of ruleTailMerge, which wants a non-empty A and a B that does not leave; a
+// non-negative condition is left alone, so this does not undo itself.)
+func (c *normCtx) ruleGuardMerge(list []ast.Stmt, ctx listCtx) []ast.Stmt {
+	if ctx.kind != lkFunc || len(list) < 3 {
+		return list
+	}
+	last, ok := list[len(list)-1].(*ast.ReturnStmt)
+	if !ok || len(last.Results) != 1 || !simpleResult(last.Results[0]) {
+		return list
+	}
+	want := c.str(last.Results[0])
+	for i := len(list) - 3; i >= 0; i-- {
+		is, ok := list[i].(*ast.IfStmt)
+		if !ok || is.Init != nil || is.Else != nil || len(is.Body.List) != 1 || !negativeCond(is.Cond) {
+			continue
+		}
+		ret, ok := is.Body.List[0].(*ast.ReturnStmt)
+		if !ok || len(ret.Results) != 1 || !simpleResult(ret.Results[0]) || c.str(ret.Results[0]) != want {
+			continue
+		}
+		if hasLabelsOrGoto(ctx.owner) {
+			return list
+		}
+		b := append([]ast.Stmt(nil), list[i+1:len(list)-1]...)
+		if id, isId := last.Results[0].(*ast.Ident); isId {
+			declared := false
+			for _, s := range b {
+				switch d := s.(type) {
+				case *ast.AssignStmt:
+					if d.Tok == token.DEFINE && countIdent(d, id.Name) > 0 {
+						declared = true
+					}
+				case *ast.DeclStmt:
+					if countIdent(d, id.Name) > 0 {
+						declared = true
+					}
+				}
+			}
+			if declared {
+				continue
+			}
+		}
+		is.Cond = negate(is.Cond)
+		is.Body = &ast.BlockStmt{Lbrace: is.Body.Lbrace, List: b, Rbrace: is.Body.Rbrace}
+		c.mark("ruleGuardMerge")
+		return append(list[:i+1:i+1], last)
+	}
+	return list
+}
+
+// commaOkAssert: s is `v, ok := X.(T)` — a short variable declaration of exactly two identifiers,
+// each `_` or NEW in this statement (go/types), ok not `_`, from one type assertion to a type.
+func (c *normCtx) commaOkAssert(s ast.Stmt) (v, okv *ast.Ident, ta *ast.TypeAssertExpr) {
+	as, isAs := s.(*ast.AssignStmt)
+	if !isAs || as.Tok != token.DEFINE || len(as.Lhs) != 2 || len(as.Rhs) != 1 {
+		return nil, nil, nil
+	}
+	v, ok1 := as.Lhs[0].(*ast.Ident)
+	okv, ok2 := as.Lhs[1].(*ast.Ident)
+	ta, ok3 := as.Rhs[0].(*ast.TypeAssertExpr)
+	if !ok1 || !ok2 || !ok3 || ta.Type == nil || okv.Name == "_" || okv.Name == v.Name {
+		return nil, nil, nil
+	}
+	if !c.isNewDef(v) || !c.isNewDef(okv) || c.objOf(okv) == nil || !c.isTypeExpr(ta.Type) {
+		return nil, nil, nil
+	}
+	return v, okv, ta
+}
+
+// isObjIdent: e is an identifier denoting obj.
+func (c *normCtx) isObjIdent(e ast.Expr, obj types.Object) bool {
+	id, ok := unparen(e).(*ast.Ident)
+	return ok && obj != nil && c.objOf(id) == obj
+}
+
+// mentionsAny: below the statements there is an identifier spelled like one of the (non-blank) names.
+func mentionsAny(list []ast.Stmt, names ...*ast.Ident) bool {
+	for _, s := range list {
+		for _, n := range names {
+			if n != nil && n.Name != "_" && countIdent(s, n.Name) > 0 {
+				return true
+			}
+		}
+	}
+	return false
+}
+
+// ruleAssertInit: a comma-ok type assertion in front of the if statement that tests it moves into
+// that statement's init clause, when what follows on success is a single return statement:
+//
+//	(1) `v, ok := X.(T); if !ok { A…; J }; return R`  ->  `if v, ok := X.(T); ok { return R }; A…; J`
+//	(2) `v, ok := X.(T); if ok { return R }; rest…`     ->  `if v, ok := X.(T); ok { return R }; rest…`
+//
+// Sound because X.(T) is evaluated once, first, in all forms, and ok is tested right after it.
+// (1) J is a return or a call of the builtin panic, and `return R` ends the list: when ok is false
+// both forms run A…; J, when it is true both run `return R` and never reach A… (the new if body
+// leaves the function). (2) only narrows the scope of v and ok to the if statement.
+// Checked: the declaration declares only NEW variables (commaOkAssert); the if has no init and no
+// else and tests exactly that ok variable; the statements that end up outside the if (A…; J, resp.
+// rest…) mention neither name (they are outside the scope of v and ok afterwards); in (1) the
+// names A… declares at its top level move into the enclosing list: they are declared nowhere else
+// in the function (movableOut); no labels or goto in the function.
+// Which spelling is canonical (not a soundness matter): the library writes the if-init form when
+// success is a single return (child identifiers) and the separate declaration with an `if !ok`
+// guard when a long success path follows (union qualifier); only the former case is rewritten.
+func (c *normCtx) ruleAssertInit(list []ast.Stmt, _ listCtx) []ast.Stmt {
+	if c.fn == nil {
+		return list
+	}
+	for i := 0; i+1 < len(list); i++ {
+		v, okv, _ := c.commaOkAssert(list[i])
+		if okv == nil {
+			continue
+		}
+		is, isIf := list[i+1].(*ast.IfStmt)
+		if !isIf || is.Init != nil || is.Else != nil {
+			continue
+		}
+		okObj := c.objOf(okv)
+		rest := list[i+2:]
+		if u, isNot := unparen(is.Cond).(*ast.UnaryExpr); isNot && u.Op == token.NOT && c.isObjIdent(u.X, okObj) {
+			// form (1)
+			if len(rest) != 1 || len(is.Body.List) == 0 {
+				continue
+			}
+			ret, isRet := rest[0].(*ast.ReturnStmt)
+			j := is.Body.List[len(is.Body.List)-1]
+			if _, jumpsBack := j.(*ast.BranchStmt); !isRet || jumpsBack || !c.realJump(j) {
+				continue
+			}
+			if hasLabelsOrGoto(c.fn) || mentionsAny(is.Body.List, v, okv) || !c.movableOut(is.Body.List, list[i], nil) {
+				continue
+			}
+			a := is.Body.List
+			is.Init = list[i]
+			is.Cond = u.X
+			is.Body = &ast.BlockStmt{Lbrace: is.Body.Lbrace, List: []ast.Stmt{ret}, Rbrace: is.Body.Rbrace}
+			out := append([]ast.Stmt(nil), list[:i]...)
+			out = append(out, is)
+			out = append(out, a...)
+			c.mark("ruleAssertInit")
+			return out
+		}
+		if c.isObjIdent(is.Cond, okObj) {
+			// form (2)
+			if len(is.Body.List) != 1 {
+				continue
+			}
+			if _, isRet := is.Body.List[0].(*ast.ReturnStmt); !isRet {
+				continue
+			}
+			if hasLabelsOrGoto(c.fn) || mentionsAny(rest, v, okv) {
+				continue
+			}
+			is.Init = list[i]
+			out := append([]ast.Stmt(nil), list[:i]...)
+			out = append(out, list[i+1:]...)
+			c.mark("ruleAssertInit")
+			return out
+		}
+	}
+	return list
+}
+
+// normSwitchBinding: the name the library gives to the variable bound by a type switch over a
+// decoded JSON value.
+const normSwitchBinding = "typedNodes"
+
+// leavesFunction: s is a return statement or a call of the builtin panic.
+func (c *normCtx) leavesFunction(s ast.Stmt) bool {
+	if _, isBranch := s.(*ast.BranchStmt); isBranch {
+		return false
+	}
+	return c.realJump(s)
+}
+
+// ruleAssertChain: two or more consecutive statements `if vi, ok := x.(Ti); ok { Bi…; Ji }` on the
+// same local variable x, followed by a non-empty tail that ends the list ->
+// `switch typedNodes := x.(type) { case T1: B1…; J1  …  default: tail }` (vi renamed to the binding).
+// Sound because — all checked —
+//   - x is an identifier denoting a local variable or parameter: evaluating it has no effect, and
+//     between two consecutive tests nothing is executed (a failed comma-ok assertion has no effect
+//     and cannot panic), so every test sees the same value, the one the switch evaluates once;
+//   - every Ji is a return or a call of the builtin panic, so control never passes from a body to
+//     the next test: the bodies are tried in order and the first Ti the dynamic value can be
+//     asserted to selects its body — exactly the rule of a type switch, clauses tried top to
+//     bottom (a single-type clause `case Ti` matches iff x.(Ti) succeeds, for interface and
+//     non-interface Ti alike; a nil x fails every assertion and matches no such clause); the tail
+//     runs iff every assertion failed, which is when `default` runs;
+//   - in a single-type clause the binding has type Ti and the asserted value: the same as vi. vi is
+//     renamed to the binding by name inside Bi…; Ji, where every occurrence of the name denotes vi
+//     (go/types); the binding's name occurs nowhere in the function, is not a package-level or
+//     universe name; the ok variables vanish: no body mentions its ok after the test;
+//   - no body and not the tail contains an unlabeled `break` that would now bind to the switch; the
+//     function has no labels or goto; the Ti are pairwise different types (Go rejects duplicate
+//     cases); the declarations of the tail move into the default clause and nothing follows it.
+//
+// Which spelling is canonical (not a soundness matter): the library tests one type with an if
+// and two or more types of the same value with a type switch (wildcard identifier, filter).
+func (c *normCtx) ruleAssertChain(list []ast.Stmt, _ listCtx) []ast.Stmt {
+	if c.fn == nil {
+		return list
+	}
+	type arm struct {
+		is  *ast.IfStmt
+		v   *ast.Ident
+		typ ast.Expr
+	}
+	// armOf: s is `if v, ok := x.(T); ok { …; J }`; returns the pieces and x.
+	armOf := func(s ast.Stmt) (*arm, *ast.Ident) {
+		is, ok := s.(*ast.IfStmt)
+		if !ok || is.Init == nil || is.Else != nil || len(is.Body.List) == 0 {
+			return nil, nil
+		}
+		v, okv, ta := c.commaOkAssert(is.Init)
+		if okv == nil || !c.isObjIdent(is.Cond, c.objOf(okv)) {
+			return nil, nil
+		}
+		x, ok := ta.X.(*ast.Ident)
+		if !ok || !c.isLocalVar(x) {
+			return nil, nil
+		}
+		if !c.leavesFunction(is.Body.List[len(is.Body.List)-1]) || hasFreeBreak(is.Body.List) || mentionsAny(is.Body.List, okv) {
+			return nil, nil
+		}
+		if v.Name != "_" {
+			vobj := c.objOf(v)
+			if vobj == nil || c.countObj(is.Body, vobj) != countIdent(is.Body, v.Name) {
+				return nil, nil
+			}
+		}
+		return &arm{is: is, v: v, typ: ta.Type}, x
+	}
+	for i := 0; i+1 < len(list); i++ {
+		first, x := armOf(list[i])
+		if first == nil {
+			continue
+		}
+		arms := []*arm{first}
+		for k := i + 1; k < len(list); k++ {
+			a, y := armOf(list[k])
+			if a == nil || c.objOf(y) == nil || c.objOf(y) != c.objOf(x) {
+				break
+			}
+			arms = append(arms, a)
+		}
+		tail := list[i+len(arms):]
+		if len(arms) < 2 || len(tail) == 0 || hasFreeBreak(tail) || hasLabelsOrGoto(c.fn) {
+			continue
+		}
+		distinct, bound := true, false
+		for a := range arms {
+			ta := c.typeOf(arms[a].typ)
+			for b := a + 1; b < len(arms); b++ {
+				tb := c.typeOf(arms[b].typ)
+				if ta == nil || tb == nil || types.Identical(ta, tb) {
+					distinct = false
+				}
+			}
+			if arms[a].v.Name != "_" {
+				bound = true
+			}
+		}
+		if !distinct {
+			continue
+		}
+		if bound && (countIdent(c.fn, normSwitchBinding) != 0 || c.pkg.pkg.Scope().Lookup(normSwitchBinding) != nil || types.Universe.Lookup(normSwitchBinding) != nil) {
+			continue
+		}
+		pos := arms[0].is.Pos()
+		var assign ast.Stmt
+		ta := &ast.TypeAssertExpr{X: x, Lparen: x.End(), Rparen: x.End()}
+		if bound {
+			assign = &ast.AssignStmt{Lhs: []ast.Expr{&ast.Ident{NamePos: pos, Name: normSwitchBinding}}, TokPos: pos, Tok: token.DEFINE, Rhs: []ast.Expr{ta}}
+		} else {
+			assign = &ast.ExprStmt{X: ta}
+		}
+		sw := &ast.TypeSwitchStmt{Switch: pos, Assign: assign, Body: &ast.BlockStmt{Lbrace: arms[0].is.Body.Lbrace, Rbrace: tail[len(tail)-1].End()}}
+		for _, a := range arms {
+			if a.v.Name != "_" {
+				name := a.v.Name
+				ast.Inspect(a.is.Body, func(n ast.Node) bool {
+					if id, ok := n.(*ast.Ident); ok && id.Name == name {
+						id.Name = normSwitchBinding
+					}
+					return true
+				})
+			}
+			sw.Body.List = append(sw.Body.List, &ast.CaseClause{Case: a.is.Pos(), List: []ast.Expr{a.typ}, Colon: a.is.Body.Lbrace, Body: a.is.Body.List})
+		}
+		sw.Body.List = append(sw.Body.List, &ast.CaseClause{Case: tail[0].Pos(), Colon: tail[0].Pos(), Body: append([]ast.Stmt(nil), tail...)})
+		c.mark("ruleAssertChain")
+		return append(list[:i:i], sw)
+	}
+	return list
+}
+
+// ruleInitSink: `if v, ok := x.(T); a { if b {S} [else {U}] }` (outer if without else, its body that
+// one if statement, which has no init) -> `if a { if v, ok := x.(T); b {S} [else {U}] }`.
+// Sound because — checked — the init statement is a comma-ok type assertion of a local variable x
+// declaring only new variables: it has no effect and cannot panic, so it does not matter whether
+// it runs before a or after it, or not at all when a is false (nothing but b, S, U can see v and
+// ok: a does not mention them, and their scope ends with the outer if); a is built from
+// identifiers, field selections, dereferences and literals only (pureExpr): it calls nothing and
+// stores nothing, so x holds the same value before and after it; if a panics (a nil dereference)
+// it does so in both forms, the assertion having had no visible effect.
+// (ruleSplitAnd leaves `if init; a && b {S}` as `if init; a { if b {S} }`; this rule then puts the
+// assertion next to the condition that uses it, which is how the library writes it.)
+func (c *normCtx) ruleInitSink(fd *ast.FuncDecl) {
+	ast.Inspect(fd.Body, func(n ast.Node) bool {
+		is, ok := n.(*ast.IfStmt)
+		if !ok || is.Init == nil || is.Else != nil || len(is.Body.List) != 1 {
+			return true
+		}
+		inner, ok := is.Body.List[0].(*ast.IfStmt)
+		if !ok || inner.Init != nil {
+			return true
+		}
+		v, okv, ta := c.commaOkAssert(is.Init)
+		if okv == nil || !pureExpr(is.Cond) {
+			return true
+		}
+		x, ok := ta.X.(*ast.Ident)
+		if !ok || !c.isLocalVar(x) {
+			return true
+		}
+		if countIdent(is.Cond, okv.Name) > 0 || (v.Name != "_" && countIdent(is.Cond, v.Name) > 0) {
+			return true
+		}
+		inner.Init, is.Init = is.Init, nil
+		c.mark("ruleInitSink")
+		return true
+	})
+}
+
+// arithOperands: e is built from identifiers of local variables, integer literals, len(id) of a
+// local variable of slice, string or array type, the operators + - *, unary minus and parentheses
+// — evaluating it has no effect and cannot panic (no division, shift, index or call), and its
+// value depends only on the listed variables. Returns those variables (nil, false if e is not of
+// that form).
+func (c *normCtx) arithOperands(e ast.Expr) ([]*ast.Ident, bool) {
+	var vars []*ast.Ident
+	var walk func(e ast.Expr) bool
+	walk = func(e ast.Expr) bool {
+		switch x := e.(type) {
+		case *ast.ParenExpr:
+			return walk(x.X)
+		case *ast.BasicLit:
+			return x.Kind == token.INT
+		case *ast.Ident:
+			if !c.isLocalVar(x) || !c.isIntegerTyped(x) {
+				return false
+			}
+			vars = append(vars, x)
+			return true
+		case *ast.UnaryExpr:
+			return x.Op == token.SUB && walk(x.X)
+		case *ast.BinaryExpr:
+			if x.Op != token.ADD && x.Op != token.SUB && x.Op != token.MUL {
+				return false
+			}
+			return c.isIntegerTyped(x) && walk(x.X) && walk(x.Y)
+		case *ast.CallExpr:
+			if len(x.Args) != 1 || x.Ellipsis.IsValid() || !c.isBuiltin(x.Fun, "len") {
+				return false
+			}
+			id, ok := x.Args[0].(*ast.Ident)
+			if !ok || !c.isLocalVar(id) {
+				return false
+			}
+			switch t := c.typeOf(id).Underlying().(type) {
+			case *types.Slice, *types.Array:
+			case *types.Basic:
+				if t.Info()&types.IsString == 0 {
+					return false
+				}
+			default:
+				return false
+			}
+			vars = append(vars, id)
+			return true
+		}
+		return false
+	}
+	if !walk(e) {
+		return nil, false
+	}
+	return vars, true
+}
+
+// substDelimited replaces the uses of obj below n by clones of repl: bare where the use is the
+// whole operand of a bracketed or comma-separated position (index, slice bound, call argument,
+// right-hand side, returned value), parenthesised everywhere else.
+func (c *normCtx) substDelimited(n ast.Node, obj types.Object, repl ast.Expr) {
+	bare := func(e ast.Expr) ast.Expr {
+		if id, ok := e.(*ast.Ident); ok && c.objOf(id) == obj {
+			r := c.cloneExpr(repl)
+			setPos(r, id.Pos())
+			return r
+		}
+		return e
+	}
+	ast.Inspect(n, func(x ast.Node) bool {
+		switch y := x.(type) {
+		case *ast.IndexExpr:
+			y.Index = bare(y.Index)
+		case *ast.SliceExpr:
+			if y.Low != nil {
+				y.Low = bare(y.Low)
+			}
+			if y.High != nil {
+				y.High = bare(y.High)
+			}
+			if y.Max != nil {
+				y.Max = bare(y.Max)
+			}
+		case *ast.CallExpr:
+			for k := range y.Args {
+				y.Args[k] = bare(y.Args[k])
+			}
+		case *ast.AssignStmt:
+			for k := range y.Rhs {
+				y.Rhs[k] = bare(y.Rhs[k])
+			}
+		case *ast.ReturnStmt:
+			for k := range y.Results {
+				y.Results[k] = bare(y.Results[k])
+			}
+		}
+		return true
+	})
+	c.substObj(n, obj, &ast.ParenExpr{Lparen: repl.Pos(), X: repl, Rparen: repl.End()})
+}
+
+// ruleArithLocal: `n := E; … n …` -> `… E …` (declaration removed), for E an integer expression
+// over local variables and their lengths that is not a bare len(xs) (ruleLenLocal) — the shape
+// `lastIndex := len(stack) - 1`.
+// Sound because — all checked —
+//   - E is side-effect free and cannot panic (arithOperands: + - * and len over locals and
+//     literals), is not a constant, and n has exactly E's type, so E can stand wherever n is read;
+//   - every operand of E is a local variable whose address is never taken and that no closure
+//     mentions (addressedOrCaptured, by name), whose name is declared exactly once in the function
+//     (so the name means that variable at every use site): its value — for a slice or string its
+//     header, which is all len looks at — changes only by an assignment statement of this function
+//     that names it;
+//   - n is a stableLocal that no closure mentions, so it holds the value E had at the declaration;
+//   - the statements after the declaration are walked in order. A use of n is replaced only while
+//     no statement executed since the declaration assigns an operand of E: a statement that does
+//     not assign any (nowhere inside it: writtenOrAddressed) leaves E's value alone wherever in it
+//     the use stands; an assignment statement that both reads n and assigns an operand evaluates
+//     all its operands before it stores (Go's two-phase assignment), so its reads still see the
+//     old values — but from then on E's value may differ and any further use of n makes the rule
+//     give up. The list is executed from the declaration onwards each time (no labels or goto in
+//     the function, so control enters it only from the top), hence "executed since the
+//     declaration" is "earlier in the list";
+//   - the builtin len is not shadowed; every occurrence of n's name after the declaration is a
+//     typed use of n.
+func (c *normCtx) ruleArithLocal(list []ast.Stmt, _ listCtx) []ast.Stmt {
+	if c.prof.keepLenLocals || c.fn == nil {
+		return list
+	}
+	for i, s := range list {
+		as, ok := s.(*ast.AssignStmt)
+		if !ok || as.Tok != token.DEFINE || len(as.Lhs) != 1 || len(as.Rhs) != 1 {
+			continue
+		}
+		n, ok := as.Lhs[0].(*ast.Ident)
+		if !ok || n.Name == "_" {
+			continue
+		}
+		e := as.Rhs[0]
+		if _, bareLen := unparen(e).(*ast.CallExpr); bareLen {
+			continue // ruleLenLocal's business
+		}
+		if _, bareVar := unparen(e).(*ast.Ident); bareVar {
+			continue // a plain copy of a variable is not an arithmetic abbreviation
+		}
+		vars, ok := c.arithOperands(e)
+		if !ok || len(vars) == 0 || !c.universeFree("len") || hasLabelsOrGoto(c.fn) {
+			continue
+		}
+		te, ok := c.pair[e].(ast.Expr)
+		if !ok {
+			continue
+		}
+		if tv, ok := c.pkg.info.Types[te]; !ok || tv.Value != nil || !tv.IsValue() {
+			continue
+		}
+		nobj := c.objOf(n)
+		if nobj == nil || !c.stableLocal(n) || !types.Identical(nobj.Type(), c.typeOf(e)) || c.capturedByClosure(c.fn, n.Name) {
+			continue
+		}
+		good := true
+		dn := declaredNames(c.fn)
+		for _, v := range vars {
+			if v.Name == n.Name || dn[v.Name] != 1 || c.addressedOrCaptured(c.fn, v.Name) {
+				good = false
+			}
+		}
+		if !good {
+			continue
+		}
+		rest := list[i+1:]
+		uses, names := 0, 0
+		for _, r := range rest {
+			uses += c.countObj(r, nobj)
+			names += countIdent(r, n.Name)
+		}
+		if uses == 0 || uses != names {
+			continue
+		}
+		assigns := func(st ast.Stmt) bool {
+			for _, v := range vars {
+				if c.writtenOrAddressed(st, v.Name) {
+					return true
+				}
+			}
+			return false
+		}
+		// first pass: decide; second pass: substitute
+		clean := true
+		var sites []ast.Stmt
+		for _, st := range rest {
+			u, w := c.countObj(st, nobj) > 0, assigns(st)
+			if u {
+				if !clean {
+					good = false
+					break
+				}
+				if _, plain := st.(*ast.AssignStmt); w && !plain {
+					good = false
+					break
+				}
+				sites = append(sites, st)
+			}
+			if w {
+				clean = false
+			}
+		}
+		if !good {
+			continue
+		}
+		for _, st := range sites {
+			c.substDelimited(st, nobj, unparen(e))
+		}
+		c.mark("ruleArithLocal")
+		return append(list[:i:i], rest...)
+	}
+	return list
+}
+
+// capturedByClosure: a function literal in fn mentions the name.
+func (c *normCtx) capturedByClosure(fn *ast.FuncDecl, name string) bool {
+	hit := false
+	ast.Inspect(fn, func(n ast.Node) bool {
+		if fl, ok := n.(*ast.FuncLit); ok && countIdent(fl, name) > 0 {
+			hit = true
+		}
+		return !hit
+	})
+	return hit
+}
+
+// normAggregateNames gives two locals of the method
+//
+//	func (f *syntaxAggregateFunction) retrieve(…) … { V := getContainer(); defer …; …; R := V.result; … }
+//
+// the names the library uses today (values, result), whatever they are called in the source: V is
+// the variable declared by the first statement from a call of getContainer, R the first variable
+// declared at the top level of the body from `V.result`. The generators `accessor`, `facts` and
+// `functions` quote these locals in the facts and definitions they emit. Pure alpha-renaming
+// (normRenameLocal: the old name is declared once, the new one is free in the function and the
+// package); when a renaming is refused the generators see the source names, and their output
+// differs from the checked-in one.
+func normAggregateNames(fd *ast.FuncDecl) {
+	if fd == nil || fd.Body == nil || fd.Recv == nil || len(fd.Recv.List) != 1 || len(fd.Body.List) == 0 {
+		return
+	}
+	star, ok := fd.Recv.List[0].Type.(*ast.StarExpr)
+	if !ok {
+		return
+	}
+	if id, ok := star.X.(*ast.Ident); !ok || id.Name != "syntaxAggregateFunction" {
+		return
+	}
+	first, ok := fd.Body.List[0].(*ast.AssignStmt)
+	if !ok || first.Tok != token.DEFINE || len(first.Lhs) != 1 || len(first.Rhs) != 1 {
+		return
+	}
+	v, ok := first.Lhs[0].(*ast.Ident)
+	call, ok2 := first.Rhs[0].(*ast.CallExpr)
+	if !ok || !ok2 || len(call.Args) != 0 {
+		return
+	}
+	if fn, ok := call.Fun.(*ast.Ident); !ok || fn.Name != "getContainer" {
+		return
+	}
+	normRenameLocal(fd, v.Name, "values")
+	for _, st := range fd.Body.List[1:] {
+		as, ok := st.(*ast.AssignStmt)
+		if !ok || as.Tok != token.DEFINE || len(as.Lhs) != 1 || len(as.Rhs) != 1 {
+			continue
+		}
+		r, ok := as.Lhs[0].(*ast.Ident)
+		se, ok2 := as.Rhs[0].(*ast.SelectorExpr)
+		if !ok || !ok2 || se.Sel.Name != "result" {
+			continue
+		}
+		if x, ok := se.X.(*ast.Ident); !ok || x.Name != v.Name {
+			continue
+		}
+		normRenameLocal(fd, r.Name, "result")
+		return
+	}
 }
